@@ -1,7 +1,7 @@
 (* Entry points of the executable model, by name. One dispatcher so that the OCaml driver and
    the in-Coq case files need no per-function glue. *)
 From Coq Require Import ZArith NArith List String Bool.
-From Sia Require Import Prim.Result Prim.Tok Currency.Model Merkle.Tree Merkle.Forest Merkle.Acc Merkle.Rhp.
+From Sia Require Import Prim.Result Prim.Tok Currency.Model Merkle.Tree Merkle.Forest Merkle.Acc Merkle.Rhp Policy.Model.
 Import ListNotations.
 Open Scope string_scope.
 Open Scope list_scope.
@@ -58,6 +58,41 @@ Section Dispatch.
         ++ map (fun q => tbool (contains_leaf H a (fst q) (snd q))) qs)%list
     | None => bad_args
     end.
+  (* ---- C14: spend policies ---- *)
+  Definition spec_of (l : list N) : bytes := firstn 16 (l ++ repeat 0%N 16).
+  Definition SPEC_ED25519 := spec_of [101; 100; 50; 53; 53; 49; 57]%N.
+  Definition SPEC_ENTROPY := spec_of [101; 110; 116; 114; 111; 112; 121]%N.
+  Fixpoint p_policy (fuel : nat) : parser policy :=
+    match fuel with
+    | O => fun _ => None
+    | S f =>
+      let* k := pnat in
+      match k with
+      | 1 => let* h := pN in pret (PAbove h)
+      | 2 => let* t := pZ in pret (PAfter t)
+      | 3 => let* b := pB in pret (PPK b)
+      | 4 => let* b := pB in pret (PHash b)
+      | 5 => let* n := pN in let* ps := plist (p_policy f) in pret (PThresh n ps)
+      | 6 => let* b := pB in pret (POpaque b)
+      | 7 => let* tl := pN in let* ks := plist (let* a := pB in let* k := pB in pret (a, k)) in let* r := pN in pret (PUC tl ks r)
+      | _ => fun _ => None
+      end%nat
+    end.
+  Definition in_tab (tab : list (bytes * bytes)) (a b : bytes) : bool :=
+    existsb (fun ab => Policy.Model.bytes_eqb (fst ab) a && Policy.Model.bytes_eqb (snd ab) b) tab.
+  Definition p_pairs : parser (list (bytes * bytes)) := plist (let* a := pB in let* b := pB in pret (a, b)).
+  Definition api_c14 (name : string) (args : list tok) : option (list tok) :=
+    if name =? "c14.verify" then
+      option_map (fun '(h, m, p, sg, pr, st, pt) =>
+          tok_res perr_code (fun _ => []) (verify_policy h m (in_tab st) (in_tab pt) SPEC_ENTROPY SPEC_ED25519 p sg pr))
+        (run_parser (let* h := pN in let* m := pZ in let* p := p_policy (List.length args) in let* sg := plist pB in let* pr := plist pB in
+                     let* st := p_pairs in let* pt := p_pairs in pret (h, m, p, sg, pr, st, pt)) args)
+    else if name =? "c14.address" then
+      option_map (fun p => [TB (address H p)]) (run_parser (p_policy (List.length args)) args)
+    else if name =? "c14.encode" then
+      option_map (fun p => [TB (1%N :: enc_policy p)]) (run_parser (p_policy (List.length args)) args)
+    else None.
+
   (* ---- C16: RHP Merkle ---- *)
   Definition p_action : parser action :=
     let* k := pnat in
@@ -123,11 +158,14 @@ Section Dispatch.
     match api_c16 name args with
     | Some r => r
     | None =>
+    match api_c14 name args with
+    | Some r => r
+    | None =>
     match name, args with
     | "hash", [TB b] => [TB (H b)]
     | "c05.run", _ => api_c05 args
     | "c05.leafhash", [TB e; TZ i; TZ s] => [TB (leaf_hash H (mkLeaf e (Z.to_N i) (negb (Z.eqb s 0))))]
     | "c05.proofroot", TB x :: TZ i :: ps => [TB (proofRootN H x (Z.to_N i) (List.concat (map (fun t => match t with TB b => [b] | _ => [] end) ps)))]
     | _, _ => bad_args
-    end end end.
+    end end end end.
 End Dispatch.
